@@ -74,6 +74,16 @@ package meta
 //@   pureeffect
 //@   requires [raw_lookup_no_virtual_parent] a3
 
+// Reviving an object removes its garbage mark and nothing else from the index: the object
+// was counted by type, as physical and as root all along (those counters follow the index,
+// and the recount derives them from it), so reviving may restore only the payload estimate
+// that the removal took off (the garbage counter is adjusted by the caller).
+//@ callrule c02_revive_touches_only_the_payload_estimate in reviveCounters
+//@   property C02
+//@   callee metabase.updateCounter
+//@   pureeffect
+//@   requires [type_counters_follow_the_index_not_the_marks] a1 == payloadCounter
+
 //@ ghost pred metaDiffGC() int
 //@ ghost pred metaDiffPhy() int
 //@ ghost pred metaDiffPayload() int64
